@@ -192,6 +192,18 @@ pub fn run_case(ctx: &Ctx, idx: u64) -> Vec<CaseOut> {
     let case = make_case(ctx, idx);
     let mut dr = Rng::new(case.data_seed);
     let mut data = gen::gen_data(&mut dr, case.fam, case.len);
+    // distances exactly at the edge of the dictionary: a random block repeated with period
+    // dict-1 / dict / dict+1 / dict+2 (the nearest earlier occurrence is exactly that far away)
+    if idx >= STEER && case.fam == Family::Periodic && (idx % 3 == 0) {
+        let d = case.spec.o.dict_size as usize;
+        let period = d - 1 + (idx as usize / 3) % 4;
+        if data.len() > period + 64 && period > 16 {
+            let block = dr.bytes(period);
+            for (i, b) in data.iter_mut().enumerate() {
+                *b = block[i % period];
+            }
+        }
+    }
     // with a preset dictionary make the data refer to it
     if let Some(pd) = &case.spec.o.preset_dict {
         if !data.is_empty() && !pd.is_empty() {
